@@ -558,7 +558,7 @@ type GuardReq struct {
 	Ctx     []string // regexps of conditions under which the guard may legitimately be evaluated
 	Weak    bool     // a weak (conjunct) guard discharges the requirement
 	Clause  string   // the clause of the property statement this row comes from
-	MinHits int
+	MinHits int      // number of distinct guards (by position) that must satisfy the row (default 1)
 }
 
 type guardCache struct {
@@ -611,8 +611,13 @@ func CheckReq(c *Ctx, rule string, req GuardReq, guards []Guard) {
 		return
 	}
 	var problems []string
+	hits := map[string]bool{}
+	okDesc, okWhere := "", ""
 	for _, cd := range cands {
 		where := c.P.Pos(cd.g.Pos)
+		if !cd.g.Pos.IsValid() {
+			where = fmt.Sprintf("%s#b%d", FuncName(cd.g.Fn), cd.g.Block.Index)
+		}
 		if !opIn(cd.op, req.Ops) {
 			problems = append(problems, fmt.Sprintf("%s: operator is %q (rejects iff %s %s %s), the property requires one of %v", where, cd.op, cd.g.L, cd.g.Op, cd.g.R, req.Ops))
 			continue
@@ -649,8 +654,16 @@ func CheckReq(c *Ctx, rule string, req GuardReq, guards []Guard) {
 			problems = append(problems, fmt.Sprintf("%s: guard can be bypassed — it is only evaluated when %s", where, strings.Join(bad, " && ")))
 			continue
 		}
-		c.OK(rule, req.ID, where, cd.g.String()+"  ["+req.Clause+"]")
-		return
+		hits[where] = true
+		okDesc = cd.g.String()
+		okWhere = where
+		if len(hits) >= max(req.MinHits, 1) {
+			c.OK(rule, req.ID, okWhere, okDesc+"  ["+req.Clause+"]")
+			return
+		}
+	}
+	if len(hits) > 0 {
+		problems = append(problems, fmt.Sprintf("only %d distinct guard(s) satisfy the row, %d required", len(hits), req.MinHits))
 	}
 	sort.Strings(problems)
 	c.Fail(rule, req.ID, c.P.Pos(cands[0].g.Pos), strings.Join(problems, " | ")+" — "+req.Clause)
